@@ -415,6 +415,17 @@ def doc_parity(repo: Repo, rep, P: str):
                     elif srcs:
                         n += 1
                         rep.ok(f"{P}.R2", f"{r.rel}:{r.cls}.process_{cid}", f"{cid}: text", f"documented {srcs[0]}")
+                elif r.shape == "custom" and not r.cstring_head and any(".decode(" in x for x in r.stmts):
+                    srcs = []
+                    if cid in rst_rows:
+                        srcs.append(rst_rows[cid])
+                    srcs += [e["type"].get("kind") for e in sc.get(cid, [])]
+                    if srcs and any(("string" in str(x)) for x in srcs):
+                        n += 1
+                        rep.violation(f"{P}.R2", f"{r.rel}:{r.cls}.process_{cid}", "; ".join(r.stmts)[:140],
+                                      f"{cid} is documented as NUL-terminated text, but the handler decodes the payload without cutting it at the first "
+                                      "NUL (e.g. rstrip keeps whatever follows an embedded terminator): files from other writers load with garbage in the text",
+                                      r.where)
                 continue
             if r.fmt is None:
                 continue
